@@ -1,5 +1,6 @@
-(* Runner of the COMPOSED server model (coq/Model/ServerW.v: handle_message_w, the object of c01_no_panic and
-   c02_wellformed): `<u|t> <edns> <catalog> <keys> <requesthex>`.  Unlike run_srv.ml nothing is composed
+(* Runner of the EXTENDED COMPOSED server model (coq/Model/ServerWT.v: handle_message_wt, the object of
+   c01_no_panic_tsig_partial / c02_wellformed_tsig_partial; = Model/ServerW.v handle_message_w - c01_no_panic, c02_wellformed -
+   on every response without TSIG; responses WITH a TSIG record are octets too now, only a verified request answered out of a zone stays abstract): `<u|t> <edns> <catalog> <keys> <requesthex>`.  Unlike run_srv.ml nothing is composed
    here: the extracted Coq function decides whether a response is produced in octets (answers out of a
    Loaded zone, and NOTIMP / REFUSED / SERVFAIL to a clean QUERY, all without TSIG) or stays abstract; octets
    are rendered through the message decoder of Spec/MsgWriterS.v in the field syntax of
@@ -119,13 +120,37 @@ let parse_keys spec =
 let show_q (q : Reader.question) =
   Printf.sprintf "%s/%d/%d" (hex q.Reader.q_name.NameWire.n_wire) (n q.Reader.q_type) (n q.Reader.q_class)
 
+(* TRUSTED GLUE: the two parameters of the composed model.
+   [hmac]: SYMBOLIC - a constant string of the algorithm's output size (0x5a ...), as in the C10 runner: no request of
+   this suite carries a MAC that matches it, so every MAC of an allowed size is BADSIG, exactly what the real
+   HMAC says about the generator's random MACs.
+   [verify]: ReadTsigRr::try_from + verify_request of Model/TsigMsg.v (the model C11's theorems are about) run with
+   that hmac; it decides FORMERR (MAC size) / BADSIG / BADTIME / verified. *)
+let hmac_sym (a : TsigMsg.alg) _ _ : BinNums.coq_N list =
+  Stdlib.List.init (match a with TsigMsg.HmacSha1 -> 20 | TsigMsg.HmacSha256 -> 32) (fun _ -> n_of_int 0x5a)
+
+let verify_model rdata (owner : NameWire.name) msg (alg : Server.tsig_alg) secret now =
+  let rr = { TsigMsg.rr_owner = owner.NameWire.n_wire; TsigMsg.rr_type = n_of_int 250; TsigMsg.rr_class = n_of_int 255;
+             TsigMsg.rr_ttl = n_of_int 0; TsigMsg.rr_rdata = rdata } in
+  match TsigMsg.read_tsig_try_from rr, TsigMsg.time_signed_of_unix now with
+  | Res.Ok r, Some nowo ->
+    (match TsigMsg.verify hmac_sym r msg TsigMsg.VRequest (ServerWT.tsig_alg_of alg) secret nowo with
+     | Res.Ok _ -> Server.VOk
+     | Res.Err TsigMsg.BadSig -> Server.VBadSig
+     | Res.Err TsigMsg.BadTime -> Server.VBadTime
+     | Res.Err TsigMsg.VFormErr -> Server.VFormErr
+     | Res.Panic -> failwith "verify_request panicked in the model")
+  | _ -> failwith "ReadTsigRr::try_from failed in the model"
+
 let () = run_lines (fun f ->
   let dup s = s ^ " | " ^ s in
   dup (match f with
   | [tr; edns; cat; keys; req] ->
     let answered = ref false and verified = ref false in
     let answer _ _ _ _ = answered := true; Server.empty_body in
-    let verify _ _ _ _ _ _ = verified := true; Server.VOk in
+    let verify rd o m a k t =
+      let v = verify_model rd o m a k t in
+      (match v with Server.VOk -> verified := true | _ -> ()); v in
     let cfg = { Server.c_transport = (if tr = "t" then Server.Tcp else Server.Udp);
                 Server.c_edns_size = n_of_int (int_of_string edns);
                 Server.c_buflen = nat_of_int 65535;
@@ -142,7 +167,7 @@ let () = run_lines (fun f ->
         (match zones.(zid) with Some z -> estimate z (Query.labels_of q.Reader.q_name) q.Reader.q_type | None -> 0)
       | _ -> 0) in
     let buf = buffer (if est + 96 <= 4096 then 4096 else 65535) in
-    (match ServerW.handle_message_w zone_of Query.neg_ttl answer verify cfg buf (unhex req) with
+    (match ServerWT.handle_message_wt hmac_sym zone_of Query.neg_ttl answer verify cfg buf (unhex req) with
      | Res.Panic -> "panic"
      | Res.Err _ -> "model-error"
      | Res.Ok None -> "none"
